@@ -390,7 +390,12 @@ pub fn cli(ctx: &Ctx) -> Stats {
     let n = ctx.n(30, 800);
     par_cases(ctx, n, |idx, st| {
         let mut rng = Rng::keyed(ctx.seed, "c10.cli", idx);
-        let (recs, w, m) = gen_case(&mut rng, 40, true);
+        let (recs, mut w, m) = gen_case(&mut rng, 40, true);
+        if idx % 10 == 7 {
+            // "any w > m": a window far beyond every record length — nothing to report, one empty line per record
+            w = [1_000_000usize, 10_000_000_000, 10_000_000_000_000, 1 << 62][(idx / 10 % 4) as usize];
+            st.class("window far longer than every record");
+        }
         let mode = if idx % 2 == 0 { MinMode::S2m } else { MinMode::M2s };
         let threads = rng.usize(0, 16);
         let sc = Scratch::new(ctx, "c10c");
